@@ -23,6 +23,7 @@ RULE = (
 )
 REQUIRED = ["probe.first_once", "deplete.duration", "deplete.current", "log.first_row", "log.rows", "log.time_increasing",
             "log.stops_at_first_violation", "battery.must_be_source", "deplete.every_solved_step_handed_over"]
+# battery.source_accepted is evaluated only when batt_life raises something that is not a solver failure (never on a correct tree)
 SIZES = {"quick": 45, "thorough": 330}
 ASSUMPTIONS = ["a battery that delivers no current in a system without phases is outside the quantifier (infinite time step)",
                "batt_life solves with its internal defaults (vtol=1e-5, itol=1e-6); the twin is solved with the same settings"]
@@ -58,21 +59,29 @@ def gen(rng, i, tier):
         rng, n_comp=(2, 10), n_src=(1, 3) if rng.random() < 0.5 else (1, 1), mux=0.3, polarity="pos", regime="benign",
         tables=0.3, phases=0.6, max_depth=4, phase_conf=0.5, rails=rng.choice([0.0, 0.6]), general2d=0.0,
     )
+    if i % 3 != 0:  # battery addressed by its rail name: make sure a source has one
+        srcs = [c for c in spec["comps"] if c["kind"] == "Source"]
+        if not any(c.get("rail") for c in srcs):
+            rng.choice(srcs)["rail"] = "Vbatt rail"
     return {"spec": spec, "seed": rng.randrange(1 << 40), "model": rng.choice(["linear", "sag", "impedance", "noisy"]),
-            "steps": rng.choice([1, 4, 7, 15, 40]), "end": rng.choice(["capacity", "cutoff", "already_below", "capacity"])}
+            "steps": rng.choice([1, 4, 7, 15, 40]), "end": rng.choice(["capacity", "cutoff", "already_below", "capacity"]),
+            "history": ["fresh", "identity_change_comp", "index_gaps", "solve_then_move_leaf"][i % 4], "by_rail": i % 3 != 0}
 
 
 def run(ctx, case):
     ns = loader.load()
     rng = random.Random(case["seed"])
     spec = case["spec"]
-    st, sysobj = H.try_build(spec)
-    if st != "ok":
-        raise RuntimeError("spec rejected: %s" % H.exc_sig(sysobj))
+    # the system is the product of a build history (edited after analysis, registries out of node order, index gaps)
+    spec, sysobj = _rows.build_with_history(ctx, spec, case.get("history", "fresh"), case["seed"] & 0xFFFFFF)
     srcs = [c for c in spec["comps"] if c["kind"] == "Source"]
     b = rng.choice(srcs)
     name = b["name"]
-    by_rail = bool(b.get("rail")) and rng.random() < 0.4
+    railed = [c for c in srcs if c.get("rail")]
+    if case.get("by_rail") and railed:
+        b = rng.choice(railed)
+        name = b["name"]
+    by_rail = bool(b.get("rail")) and bool(case.get("by_rail", rng.random() < 0.4))
     ref = b["rail"] if by_rail else name
     phases = list((spec.get("phases") or {}).items())
     # --- a name that is not a Source must be rejected ---
@@ -137,9 +146,12 @@ def run(ctx, case):
     det0 = {"battery": name, "by_rail": by_rail, "model": model, "end": end, "steps": steps, "phases": [p for p, _ in phases]}
     ctx.count("outcome", "returned" if stc == "ok" else type(log).__name__)
     if stc != "ok":
-        if isinstance(log, (RuntimeError, ValueError)) and "teady" in str(log) + "nstable" :
-            return
+        if isinstance(log, (RuntimeError, ValueError)) and ("teady" in str(log) or "nstable" in str(log)):
+            return  # the solver found no steady state for some battery state (C03's business)
         ctx.count("battlife_raised", H.exc_sig(log))
+        # a Source of the system (by name or by rail) is a valid battery: nothing but the solver may refuse the run
+        idle = isinstance(log, (ZeroDivisionError, OverflowError)) and not phases
+        ctx.check("battery.source_accepted", idle, dict(det0, addressed_as=ref, outcome=H.exc_sig(log), callbacks_made=len(calls)))
         return
     if not phases and any(c[0] == "d" and c[2] == 0 for c in calls):
         # an idle battery without phases: "the time to draw 1/1000 of the capacity" is infinite; outside the quantifier
